@@ -122,9 +122,25 @@ func genC08Plan(r *zsim.Rng) *sysPlan {
 			p.Gens[1].N = r.Range(3, 200)
 		}
 	}
+	// query edits bound to events of the key loop itself: backward-eof (backspace on an empty query), jump and
+	// jump-cancel (the key that ends jump mode)
+	evBinds := r.Chance(1, 5)
+	if evBinds {
+		edit := func() string { return pick(r, "change-query(ab)", "put(a)", "change-query(c)", "put(b)+put(a)") }
+		p.Args = append(p.Args, "--bind", "backward-eof:"+edit(), "--bind", "alt-j:jump", "--bind", "jump:"+edit(), "--bind", "jump-cancel:"+edit())
+	}
 	nev := r.Range(1, 22)
 	for i := 0; i < nev; i++ {
 		ev := sysEvent{DelayMs: genDelay(r), Kind: "keys"}
+		if evBinds && r.Chance(1, 3) {
+			switch r.Intn(3) {
+			case 0:
+				p.Events = append(p.Events, sysEvent{Kind: "keys", Keys: "ctrl-u"}, sysEvent{Kind: "keys", Keys: "bspace", DelayMs: genDelay(r)})
+			default:
+				p.Events = append(p.Events, sysEvent{Kind: "keys", Keys: "alt-j", DelayMs: genDelay(r)}, sysEvent{Kind: "keys", Keys: pick(r, "a", "s", "d", "space", "x", "0"), DelayMs: genDelay(r)})
+			}
+			continue
+		}
 		switch k := r.Intn(20); {
 		case k < 9:
 			ev.Keys = string(lineAlphabet[r.Intn(len(lineAlphabet))])
@@ -208,6 +224,7 @@ func c08Settle(r *sysRun, busy bool, final bool) {
 	// model: delivered events so far -> sort flag, last issued reload
 	binds := boundActions(plan.baseArgs())
 	sortNow := plan.Match.Sort
+	sortKnown, afterJump := true, false
 	delivered := 0
 	for i := range plan.Events {
 		ev := plan.Events[i]
@@ -221,10 +238,19 @@ func c08Settle(r *sysRun, busy bool, final bool) {
 		if ev.Kind == "keys" {
 			for _, k := range strings.Fields(ev.Keys) {
 				if a, ok := binds[k]; ok && strings.Contains(a, "toggle-sort") {
+					if afterJump {
+						// the key that follows `jump` ends jump mode and is not executed - if jump mode was
+						// entered (it is not on an empty list): either way is fine
+						sortKnown = false
+					}
 					sortNow = !sortNow
 				}
+				afterJump = binds[k] == "jump"
 			}
 		}
+	}
+	if !sortKnown {
+		sortNow = st.Sort
 	}
 	h := plan.Header
 	if h > len(L) {
